@@ -76,6 +76,15 @@ class _Fail(Exception):
     pass
 
 
+def escaped_from_code_under_test(e):
+    """'module.py:function' of the innermost frame inside the mappyfile package under test, or None."""
+    pkg = os.path.join(env.REPO, "mappyfile") + os.sep
+    frames = [f for f in traceback.extract_tb(e.__traceback__) if f.filename.startswith(pkg)]
+    if not frames:
+        return None
+    return f"{os.path.basename(frames[-1].filename)}:{frames[-1].name}"
+
+
 def hyp_search(acc: Acc, prop: str, name: str, shard: int, n_examples: int, body, tier="quick",
                max_rounds=6, shrink_cap_s=None):
     """Run `body(data) -> list[Discrepancy]` under Hypothesis with a seed derived from
@@ -106,7 +115,18 @@ def hyp_search(acc: Acc, prop: str, name: str, shard: int, n_examples: int, body
                 state["capped"] = True
                 reject()
             state["n"] += 1
-            ds = body(data)
+            try:
+                ds = body(data)
+            except (_Fail, AssertionError):
+                raise
+            except Exception as e:
+                # an exception the check did not anticipate: if it comes out of the code under test it is an
+                # outcome to report (a violation with the traceback as evidence), not a harness error
+                where = escaped_from_code_under_test(e)
+                if where is None or type(e).__module__.startswith("hypothesis"):
+                    raise
+                ds = [Discrepancy(f"escaped:{type(e).__name__}:{where}", f"{type(e).__name__} escaped from the code under test ({where}): {e!s:.200}",
+                                  {"not_replayable": True, "traceback": traceback.format_exc()[-3000:]})]
             ds = [d for d in ds if d.bucket not in masked]
             if not ds:
                 return
@@ -339,6 +359,9 @@ def run_replay(mod, path):
     with open(path, encoding="utf-8") as f:
         c = json.load(f)
     case = c.get("case", c)
+    if isinstance(case, dict) and case.get("not_replayable"):
+        sys.stderr.write("this record holds a traceback, not a replayable case: re-run the check itself\n" + case.get("traceback", "") + "\n")
+        return EXIT_HARNESS
     ds = mod.replay(case)
     if ds:
         for d in ds:
